@@ -8,6 +8,7 @@ PROP = "C19"
 PROPS_V = "theories/Props/C19.v"
 THEOREMS = [
     "C19_no_delete_on_any_failure",
+    "C19_fault_patterns_fail",
     "C19_partial_failure_keeps_archives",
     "C19_deleted_implies_archived_refuted",
     "C19_deleted_implies_archived_outside_known",
@@ -15,6 +16,7 @@ THEOREMS = [
     "C19_recover_roundtrip_outside_known",
     "C19_recover_roundtrip_refuted",
     "C19_archive_names_unique_refuted",
+    "C19_archive_name_determines_id",
     "C19_archive_kept_outside_known",
     "C19_history_deleted_stay_archived",
 ]
